@@ -24,7 +24,9 @@ def run(tier: str) -> int:
             {"Family": "core2nosoi", "MaxLen": 3, "Starts": "all", "Sample": 300, "workers": 3, "invariants": INV},
             {"Family": "trivia2", "MaxLen": 3, "Starts": "all", "Sample": 200, "workers": 3, "invariants": INV},
             {"Family": "mods", "MaxLen": 3, "Starts": "all", "Sample": 150, "workers": 3, "invariants": INV},
-            {"Family": "stack", "MaxLen": 3, "Starts": "all", "Sample": 600, "workers": 3, "invariants": INV},
+            {"Family": "stack", "MaxLen": 3, "Starts": "all", "Sample": 500, "workers": 3, "invariants": INV},
+            {"Family": "optsk", "MaxLen": 3, "Starts": "all", "Sample": 250, "workers": 3, "invariants": INV, "style": "min"},
+            {"Family": "optsq", "MaxLen": 3, "Starts": "all", "Sample": 200, "workers": 3, "invariants": INV, "style": "min"},
         ]
     else:
         fams = [
@@ -33,6 +35,8 @@ def run(tier: str) -> int:
             {"Family": "trivia2", "MaxLen": 4, "Starts": "all", "Sample": 0, "workers": 8, "invariants": INV},
             {"Family": "mods", "MaxLen": 4, "Starts": "all", "Sample": 0, "workers": 8, "invariants": INV},
             {"Family": "stack", "MaxLen": 4, "Starts": "all", "Sample": 0, "workers": 8, "invariants": INV},
+            {"Family": "optsk", "MaxLen": 4, "Starts": "all", "Sample": 0, "workers": 8, "invariants": INV, "style": "min"},
+            {"Family": "optsq", "MaxLen": 3, "Starts": "all", "Sample": 0, "workers": 8, "invariants": INV, "style": "min"},
         ]
     for f in fams:
         replay.run_family(rep, f, "shift", modes)
